@@ -106,6 +106,7 @@ func vfStartSession(r *vfRun, ops []vfOp) *vfSession {
 		s.wc.framer.max = 4 << 20 // the server may be configured to send frames larger than its own receive limit
 	}
 	s.wc.window = int(sc.cfg("window", 0))
+	s.wc.dupIDs = int(sc.cfg("dupids", 0))
 	s.wc.halfCls = sc.cfg("halfclose", 0) != 0
 	s.wc.dataTag = s.tag
 	s.wc.nextID = 10 + uint32(s.tag%5000) // request ids vary per run
